@@ -92,7 +92,7 @@ struct VfRun {
     if (f.i("noseekfn", 0) && !H.sf.seekable) { cb.seek_func = nullptr; cb.tell_func = nullptr; }
     if (f.i("noclosefn", 0)) cb.close_func = nullptr;
     std::vector<char> initial;
-    if (ib > 0 && !H.sf.seekable) { ib = (int)std::min<size_t>((size_t)ib, sr.bytes.size()); initial.assign(sr.bytes.begin(), sr.bytes.begin() + ib); H.sf.pos = ib; }
+    if (ib > 0) { ib = (int)std::min<size_t>((size_t)ib, sr.bytes.size()); initial.assign(sr.bytes.begin(), sr.bytes.begin() + ib); H.sf.pos = ib; }   // bytes the application has already read (sniffing the format) are handed over; the source stands behind them, seekable or not
     else ib = 0;
     long r;
     if (how == 2 || how == 3) {
@@ -466,6 +466,9 @@ void VfRun::oracle_seek_faulted(Handle &H, const Rec &op, const std::string &kin
   }
   if (kind == "pcm_seek") ok = ok || t1 == tp; else if (kind == "time_seek") ok = ok || (t1 >= tp - 1 && t1 <= tp + 1); else ok = ok || (t1 >= 0 && t1 <= tp + (kind == "time_seek_page" ? 1 : 0));
   g_stats.inc("probe.faulted_seek_reported_success");
+  // ... and when it claims the exact target after a one-shot failure (the library retried or did not need the lost read), the handle is as good
+  // as any other after a successful seek: the reads that follow are judged exactly, not under the relaxed rules of a failed call
+  if (ok && t1 == tp && t1 != sr.total && site == kind && (kind == "pcm_seek" || kind == "time_seek") && H.sf.active_kind == IOF_NONE && H.sf.faults_pending() == 0) { H.io_dirty = false; H.just_sought = true; H.reads_since_seek = 0; g_stats.inc("probe.faulted_seek_success_held_to_read_oracle"); }
   check(ok, {"C12"}, site, "faulted-seek-reports-success-elsewhere", fmt("ret=0 tell=%lld target=%lld total=%lld", (long long)t1, (long long)tp, (long long)sr.total), {{"kind", kind}});
 }
 
